@@ -3,6 +3,7 @@ mod c02;
 mod c03;
 mod c04;
 mod c05;
+mod c06;
 mod c07;
 mod c08;
 mod c09;
@@ -94,6 +95,15 @@ fn main() {
         "c05" => c05::main(tier),
         "c05-child" => c05::child(&args[2..]),
         "c05-describe" => c05::describe_cmd(&args[2..]),
+        "c06" => c06::main(tier),
+        "list-filters" => {
+            // every native filter and definition of the current tree as JSON [[name, arity], ...]
+            let mut v: Vec<(String, usize)> = jaq_all::data::funs().map(|(n, a, _)| (n.to_string(), a.len())).collect();
+            v.extend(jq::defdb().all_named());
+            v.sort();
+            v.dedup();
+            println!("{}", serde_json::to_string(&v).unwrap());
+        }
         "c07" => c07::main(tier),
         "c08" => c08::main(tier),
         "c09" => c09::main(tier),
